@@ -1185,8 +1185,21 @@ def run_mps(case, npc, cy):
     Bs = [psi0.get_B(i, copy=True) for i in range(L)]
     Ss = [psi0.get_SL(i) for i in range(L)] + [psi0.get_SR(L - 1)]
     before_B = [Hist.obs_arr(B) for B in Bs]
-    psi = MPS([site] * L, Bs, Ss, bc=bc, form='B', unit_cell_width=L)
+    form_list = ['B'] * L
+    form0, nB0, nS0 = list(form_list), len(Bs), len(Ss)
+    Bs_ids, Ss_ids = [id(B) for B in Bs], [id(x) for x in Ss]
+    Ss_vals = [np.asarray(x).tobytes() for x in Ss]
+    psi = MPS([site] * L, Bs, Ss, bc=bc, form=form_list, unit_cell_width=L)
+    if form_list != form0 or [id(B) for B in Bs] != Bs_ids or [id(x) for x in Ss] != Ss_ids \
+            or [np.asarray(x).tobytes() for x in Ss] != Ss_vals:
+        oracle.append(('c03.mps.init.argument-lists-changed', 'MPS(sites, Bs, SVs, form=[...]) changed a caller-owned list/array'))
     ref = obs_mps(psi)
+    form_list[0] = 'A'          # the caller edits / re-uses its own lists
+    Bs_keep = list(Bs)
+    Bs[0] = None
+    if obs_mps(psi) != ref:
+        oracle.append(('c03.mps.init.aliases-caller-lists', 'editing the lists given as form / Bs to MPS() changed the MPS'))
+    Bs[0] = Bs_keep[0]
     for i, B in enumerate(Bs):
         if Hist.obs_arr(B) != before_B[i]:
             oracle.append(('c03.mps.init.argument-changed', f'B[{i}] passed to MPS() changed'))
@@ -1241,6 +1254,48 @@ def run_mps(case, npc, cy):
         if site_snap() != s0:
             oracle.append((f'c03.mps.{t}.site-mutated', 'site leg or site operator changed'))
             s0 = site_snap()
+    # --- MPS.from_full must not change the tensor it is given (also when it already carries 'vL' and 'vR')
+    try:
+        if bc == 'finite' and L <= 4:
+            theta = psi.get_theta(0, L)              # labels vL, p0.., vR
+            perm = list(range(theta.rank))
+            rng.shuffle(perm)
+            theta = theta.transpose(perm)            # caller-owned tensor in an arbitrary leg order
+            t0 = Hist.obs_arr(theta)
+            t_fp = H.fp_arr(theta)
+            phi = MPS.from_full([site] * L, theta, bc='finite', unit_cell_width=L)
+            if Hist.obs_arr(theta) != t0:
+                oracle.append(('c03.mps.from_full.argument-changed',
+                               f'MPS.from_full(sites, psi) changed the tensor it was given (leg order {perm} -> '
+                               f'{theta.get_leg_labels()})'))
+            refphi = obs_mps(phi)
+            theta *= 2.0
+            if obs_mps(phi) != refphi:
+                oracle.append(('c03.mps.from_full.aliases-argument', 'mutating the tensor given to from_full changed the MPS'))
+            ops_done.append('mps.from_full')
+    except Exception:
+        if 'tenpy' not in traceback.format_exc():
+            raise
+        ops_done.append('mps.rejected.from_full')
+    # --- enlarge_mps_unit_cell (in place on a copy): the original is unchanged; in-place MPS methods on one site of the
+    #     enlarged state do not leak into the periodic image (the same Array object may be stored at j and j+L)
+    if bc == 'infinite':
+        try:
+            ref = obs_mps(psi)
+            big = psi.copy()
+            big.enlarge_mps_unit_cell(2)
+            img = [Hist.obs_arr(big._B[j]) for j in range(L, 2 * L)]
+            big.apply_local_op(0, 'Sigmaz', unitary=True)
+            if obs_mps(psi) != ref:
+                oracle.append(('c03.mps.copy.enlarge_mps_unit_cell.original-changed', 'enlarge + apply_local_op on psi.copy() changed psi'))
+            if [Hist.obs_arr(big._B[j]) for j in range(L, 2 * L)] != img:
+                oracle.append(('c03.mps.enlarge_mps_unit_cell.image-site-changed',
+                               'apply_local_op on site 0 of the enlarged state changed the tensor of site L'))
+            ops_done.append('mps.enlarge')
+        except Exception:
+            if 'tenpy' not in traceback.format_exc():
+                raise
+            ops_done.append('mps.rejected.enlarge')
     # --- get_B(copy=False) returns the stored tensor (documented aliasing); copy=True an independent one
     i = rng.randrange(L)
     B_alias = psi.get_B(i, form=None, copy=False)
@@ -1282,6 +1337,208 @@ def run_mps(case, npc, cy):
     return dict(steps=[], fps=[], oracle=oracle, ops=ops_done, nobj=L)
 
 
+# ------------------------------------------------------------------------------------------------------------------
+# MPO level: a second live object derived from an MPO, then in-place methods on the derived object
+
+
+def dense_mpo(H, npc):
+    """the operator on one unit cell selected by IdL[0] / IdR[-1] (uses W tensors AND IdL/IdR together)"""
+    if int(np.prod([st.dim for st in H.sites])) > 256:
+        return ('too-large', )
+    T = None
+    for i in range(H.L):
+        W = H._W[i].replace_labels(['p', 'p*'], [f'p{i}', f'p{i}*'])
+        T = W if T is None else npc.tensordot(T, W, axes=('wR', 'wL'))
+    a, b = H.IdL[0], H.IdR[-1]
+    if a is None or b is None:
+        return ('no-Id', )
+    T = T.take_slice([int(a), int(b) % T.get_leg('wR').ind_len], ['wL', 'wR'])
+    T = T.transpose([f'p{i}' for i in range(H.L)] + [f'p{i}*' for i in range(H.L)])
+    d = T.to_ndarray()
+    return (d.shape, np.round(d, 10).tobytes())
+
+
+def obs_mpo(H, npc):
+    Ws = []
+    for W in H._W:
+        Wn = W.transpose(['wL', 'wR', 'p', 'p*'])   # (leg order of the stored tensors is not an observable of the MPO)
+        d = Wn.to_ndarray()
+        Ws.append((d.shape, str(d.dtype), np.round(d, 10).tobytes(), tuple(l.to_qflat().tobytes() for l in Wn.legs),
+                   tuple(int(l.qconj) for l in Wn.legs), Wn.qtotal.tobytes()))
+    try:
+        dense = dense_mpo(H, npc)
+    except Exception as e:
+        dense = ('ERR', type(e).__name__)
+    return dict(IdL=[None if x is None else int(x) for x in H.IdL], IdR=[None if x is None else int(x) for x in H.IdR],
+                chi=[int(c) for c in H.chi], W=Ws, dense=dense, L=H.L, bc=H.bc, grouped=H.grouped,
+                max_range=None if H.max_range is None else float(H.max_range), hc=bool(H.explicit_plus_hc),
+                sites=[id(x) for x in H.sites])
+
+
+def diff_keys(a, b):
+    return [k for k in a if a[k] != b[k]]
+
+
+def run_mpo(case, npc, cy):
+    from tenpy.networks.mpo import MPO, MPOGraph
+    from tenpy.networks.site import SpinHalfSite
+    from tenpy.networks.terms import TermList
+    from tenpy.models.spins import SpinChain
+    rng = random.Random(case['seed'])
+    oracle, ops_done = [], []
+    conserve = rng.choice(['Sz', 'Sz', 'parity', None])
+    bc = rng.choice(['finite', 'finite', 'infinite'])
+    L = rng.choice([2, 3, 4]) if bc == 'finite' else rng.choice([2, 4])
+    live = []      # (name, MPO): every MPO ever made stays alive and observed
+
+    def add(name, H):
+        live.append([name, H, obs_mpo(H, npc)])
+        return H
+
+    def check(step, allowed=()):
+        """every live MPO except `allowed` must be observably what it was"""
+        for rec in live:
+            name, H, snap = rec
+            if any(H is a for a in allowed):
+                rec[2] = obs_mpo(H, npc)
+                continue
+            now = obs_mpo(H, npc)
+            if now != snap:
+                oracle.append((f'c03.mpo.{step}.other-mpo-changed',
+                               f'{step}: MPO `{name}` changed in {diff_keys(now, snap)}'))
+                rec[2] = now
+
+    # --- source 1: Hamiltonian of a model, virtual legs NOT sorted (so that sort_legcharges really permutes)
+    M = SpinChain(dict(L=L, S=0.5, Jx=1., Jy=1., Jz=0.7, hz=0.3 if conserve != 'parity' else 0., hx=0.2 if conserve is None else 0.,
+                       bc_MPS=bc, conserve=conserve, sort_mpo_legs=False))
+    H = add('H', M.H_MPO)
+    s = M.lat.mps_sites()[0]
+    ops_done.append('mpo.model')
+    # --- source 2: from_grids with caller-owned IdL / IdR lists
+    grid = [['Id', 'Sp', 'Sm', 'Sz', 'Sz'], [None, None, None, None, 'Sm'], [None, None, None, None, 'Sp'],
+            [None, None, None, None, 'Sz'], [None, None, None, None, 'Id']]
+    if conserve in ('Sz', 'parity', None):
+        IdL, IdR = [0] * (L + 1), [-1] * (L + 1)
+        IdL0, IdR0 = list(IdL), list(IdR)
+        grids = [[list(r) for r in grid] for _ in range(L)]
+        grids0 = [[list(r) for r in g] for g in grids]
+        try:
+            Hg = add('from_grids', MPO.from_grids([s] * L, grids, bc, IdL, IdR, mps_unit_cell_width=L))
+            if IdL != IdL0 or IdR != IdR0:
+                oracle.append(('c03.mpo.from_grids.caller-IdL-IdR-changed',
+                               f'MPO.from_grids(sites, grids, {bc!r}, IdL, IdR) changed the caller\'s lists: IdL {IdL0} -> {IdL}, IdR {IdR0} -> {IdR}'))
+            if grids != grids0:
+                oracle.append(('c03.mpo.from_grids.caller-grids-changed', 'MPO.from_grids changed the caller\'s grids'))
+            before = obs_mpo(Hg, npc)
+            IdL[1], IdR[1] = None, None      # the caller re-uses / edits its own lists
+            if obs_mpo(Hg, npc) != before:
+                oracle.append(('c03.mpo.from_grids.aliases-caller-IdL-IdR', 'editing the caller\'s IdL/IdR lists changed the MPO built by from_grids'))
+            check('from_grids')
+            ops_done.append('mpo.from_grids')
+        except Exception as e:
+            if 'tenpy' not in traceback.format_exc():
+                raise
+            ops_done.append('mpo.rejected.from_grids')
+    # --- source 3: MPO(sites, Ws, bc, IdL, IdR) from caller-owned lists and tensors
+    src = rng.choice([r[1] for r in live])
+    Ws = [src.get_W(i, copy=True) for i in range(src.L)]
+    myL, myR = list(src.IdL), list(src.IdR)
+    myL0, myR0, W0 = list(myL), list(myR), [Hist.obs_arr(W) for W in Ws]
+    H3 = add('MPO()', MPO(src.sites, Ws, src.bc, myL, myR, src.max_range, mps_unit_cell_width=src.unit_cell_width))
+    if myL != myL0 or myR != myR0 or [Hist.obs_arr(W) for W in Ws] != W0:
+        oracle.append(('c03.mpo.init.argument-changed', 'MPO(...) changed its IdL/IdR/Ws arguments'))
+    before = obs_mpo(H3, npc)
+    myL[rng.randrange(len(myL))] = None
+    myR[0] = None
+    if obs_mpo(H3, npc) != before:
+        oracle.append(('c03.mpo.init.aliases-caller-IdL-IdR', 'editing the lists given as IdL/IdR to MPO(...) changed the MPO'))
+    before = obs_mpo(H3, npc)
+    for W in Ws:
+        W *= 2.0
+    Ws[0] = None
+    if obs_mpo(H3, npc) != before:
+        oracle.append(('c03.mpo.init.aliases-caller-Ws', 'mutating the tensors / list given as Ws to MPO(...) changed the MPO'))
+    check('MPO()')
+    ops_done.append('mpo.init')
+    # --- source 4: MPOGraph
+    try:
+        tl = TermList([[('Sz', 0), ('Sz', 1)], [('Sz', 0)]], [0.5, 0.25])
+        g = MPOGraph.from_term_list(tl, src.sites, src.bc, unit_cell_width=src.unit_cell_width)
+        add('graph', g.build_MPO())
+        check('build_MPO')
+        ops_done.append('mpo.graph')
+    except Exception:
+        if 'tenpy' not in traceback.format_exc():
+            raise
+        ops_done.append('mpo.rejected.graph')
+
+    # --- derive second objects by the non-in-place methods, then run in-place methods on the derived object
+    derive = ['dagger', 'copy', 'add', 'make_U_I', 'make_U_II', 'extract_segment', 'ctor', 'plus_identity']
+    inplace = ['sort_legcharges', 'sort_legcharges', 'group_sites', 'enlarge', 'set_W', 'edit_Id']
+    for _ in range(case.get('nderive', 6)):
+        name0, A, _ = rng.choice(live[:6])
+        dv = rng.choice(derive)
+        try:
+            if dv == 'dagger':
+                D = A.dagger()
+            elif dv == 'copy':
+                D = A.copy()
+            elif dv == 'add':
+                D = A + A
+            elif dv == 'make_U_I':
+                D = A.make_U_I(0.1)
+            elif dv == 'make_U_II':
+                D = A.make_U_II(0.1)
+            elif dv == 'extract_segment':
+                D = A.extract_segment(0, A.L - 1)
+            elif dv == 'plus_identity':
+                D = A.plus_identity(1., 0.5)
+            else:
+                D = MPO(A.sites, A._W, A.bc, A.IdL, A.IdR, A.max_range, mps_unit_cell_width=A.unit_cell_width)
+        except Exception:
+            if 'tenpy' not in traceback.format_exc():
+                raise
+            ops_done.append('mpo.rejected.' + dv)
+            check(dv)
+            continue
+        add(f'{dv}({name0})', D)
+        check(dv)                       # deriving is not in place: nothing else may change
+        ops_done.append('mpo.' + dv)
+        for ip in rng.sample(inplace, 2):
+            step = f'{dv}.{ip}'
+            try:
+                if ip == 'sort_legcharges':
+                    D.sort_legcharges()
+                elif ip == 'group_sites':
+                    if D.L % 2 or D.grouped > 1:
+                        continue
+                    D.group_sites(2)
+                elif ip == 'enlarge':
+                    if D.finite or D.L > 4:
+                        continue
+                    D.enlarge_mps_unit_cell(2)
+                elif ip == 'set_W':
+                    i = rng.randrange(D.L)
+                    D.set_W(i, D.get_W(i, copy=True) * 2.0)
+                else:
+                    D.IdL[rng.randrange(len(D.IdL))] = None    # direct edit of the derived object's own list
+            except Exception:
+                if 'tenpy' not in traceback.format_exc():
+                    raise
+                ops_done.append('mpo.rejected.' + ip)
+            else:
+                ops_done.append('mpo.' + ip)
+            # in place on D: only D may change. Documented exception: a derived object that IS a shallow copy by
+            # documentation shares nothing but the tensors - the check treats `copy` like every other derivation.
+            n_before = len(oracle)
+            check(step, allowed=[D])
+            # give the failure a signature that names derivation + in-place method + what was hit
+            for k in range(n_before, len(oracle)):
+                oracle[k] = (f'c03.mpo.{dv}.{ip}.original-changed', oracle[k][1])
+    return dict(steps=[], fps=[], oracle=oracle, ops=ops_done, nobj=len(live))
+
+
+
 def main(inp, outp):
     import tenpy
     from tenpy.tools import optimization
@@ -1295,6 +1552,8 @@ def main(inp, outp):
         try:
             if case.get('kind') == 'mps':
                 results.append(run_mps(case, npc, cy))
+            elif case.get('kind') == 'mpo':
+                results.append(run_mpo(case, npc, cy))
             else:
                 w = Walk(case, npc, ch, cy)
                 H = w.run()
